@@ -22,7 +22,7 @@
 #define NFILES 3
 #endif
 #define TXT 96
-#define DEPTH (K + 2)
+#define DEPTH (2 * K + 4)
 #define MAXF 17
 static char fname[MAXF][8];
 static struct ghost {
@@ -52,8 +52,12 @@ static char *menu[] = {
 	"b +", "b -",	/* 12 13 */
 	"2",		/* 14: move the current line */
 	"1,$w",		/* 15: whole buffer written with an explicit range */
+	"1d|w|$a",	/* 16: edit, save and edit again within one command line (+ text block) */
+	"e! f%d",	/* 17: forced switch by path: leaves a modified buffer behind */
+	"e! f%d",	/* 18: (same as 17) */
+	"$a|w",		/* 19: edit and save within one command line (+ text block) */
 };
-#define NMENU 16
+#define NMENU 20
 
 static int which(char *path)
 {
@@ -89,6 +93,16 @@ static int disk_eq(int f, char *txt)
 static int nopens(int f) { int i = env_find(fname[f]); return i < 0 ? 0 : env_fs[i].opens; }
 static int dirty(int f) { return G[f].open && !disk_eq(f, G[f].st[G[f].u]); }
 static int anydirty(void) { int i; for (i = 0; i < MAXF; i++) if (dirty(i)) return 1; return 0; }
+static void push_text(int f, char *txt)
+{
+	struct ghost *g = &G[f];
+	symx_assert(strlen(txt) < TXT && g->u + 1 < DEPTH, "ghost fits");
+	g->u++;
+	g->n = g->u;
+	strcpy(g->st[g->u], txt);
+	if (g->disk >= g->u)
+		g->disk = -1;
+}
 static void push(int f)
 {
 	struct ghost *g = &G[f];
@@ -157,7 +171,7 @@ static void step(int c, int N)
 	wasdirty = dirty(cur);
 	rowbefore = xrow;
 	before = exh_text();
-	if (c == 2)
+	if (c == 2 || c == 16 || c == 19)
 		exh_input("new\n.\n");
 	exh_out_reset();
 	if (c < 0)
@@ -173,7 +187,7 @@ static void step(int c, int N)
 		if (anydirty()) {
 			symx_reach("quit-refused");
 			symx_assert(xquit == 0, "q is refused while some buffer differs from its file");
-			symx_assert(dirty(f), "a refused q switches to a dirty buffer");
+			symx_assert(dirty(f) || G[f].disk != G[f].u, "a refused q switches to a buffer that is not at its saved state");
 			if (f != cur) {
 				G[cur].row = rowbefore;
 				alt = cur;
@@ -222,6 +236,23 @@ static void step(int c, int N)
 	case 6:
 		symx_assert(st == 0, "w! o succeeds");
 		break;
+	case 16:	/* 1d | w | $a: the w in the middle closes an undo step; the file holds the middle state */
+		symx_assert(f == cur && st == 0, "compound command succeeds");
+		if (before[0]) {
+			char *nl = strchr(before, '\n');
+			push_text(cur, nl ? nl + 1 : "");	/* after 1d */
+		}
+		G[cur].disk = G[cur].u;
+		push(cur);				/* after $a */
+		G[cur].opens = nopens(cur);
+		symx_assert(!disk_eq(cur, G[cur].st[G[cur].u]), "the text after the last edit differs from what w wrote");
+		break;
+	case 19:	/* $a | w */
+		symx_assert(f == cur && st == 0, "compound command succeeds");
+		push(cur);
+		G[cur].disk = G[cur].u;
+		G[cur].opens = nopens(cur);
+		break;
 	case 7:
 		if (lbuf_len(xb) >= 1) {
 			symx_assert(st == 0, "1w succeeds");
@@ -237,7 +268,7 @@ static void step(int c, int N)
 		G[cur].opens = nopens(cur);
 		symx_assert(disk_eq(cur, G[cur].st[G[cur].u]), "after e! the buffer holds the file");
 		break;
-	case 9:
+	case 9: case 17: case 18:
 		target = N - 1;
 		break;
 	case 10:
@@ -258,15 +289,16 @@ static void step(int c, int N)
 		symx_assert(f == cur, "a line-number command does not switch buffers");
 		break;
 	}
-	if (c >= 9 && c <= 13) {
-		if (target < 0 || (c >= 10 && !G[target].open)) {
+	if ((c >= 9 && c <= 13) || c == 17 || c == 18) {
+		int forced = c == 17 || c == 18;
+		if (target < 0 || (c >= 10 && c != 17 && c != 18 && !G[target].open)) {
 			symx_reach("no-such-buffer");
 			symx_assert(f == cur, "a switch to a buffer that does not exist stays put");
-		} else if (wasdirty && target != cur) {
+		} else if (wasdirty && target != cur && !forced) {
 			symx_reach("switch-refused");
 			symx_assert(st != 0 && f == cur, "e / b without ! are refused while the buffer differs from its file");
 			symx_assert(exh_text_is(before), "a refused switch discards nothing");
-		} else if (wasdirty && target == cur && c == 9) {
+		} else if (wasdirty && target == cur && (c == 9 || c == 17 || c == 18)) {
 			symx_assert(f == cur && exh_text_is(before), "re-editing the own path keeps unsaved text");
 		} else {
 			symx_reach("switched");
@@ -308,7 +340,13 @@ void harness(void)
 	opened(0);
 #ifdef PREOPEN
 	/* fill the buffer table: an edit in the first buffers, then open the rest */
-	for (i = 2; i <= PREOPEN; i++)
+	if (symx_conc(symx_u8("dirtyfirst") & 1)) {
+		step(1, 1);		/* 1d in f1, then leave it behind modified */
+		step(17, 2);
+	} else {
+		step(9, 2);
+	}
+	for (i = 3; i <= PREOPEN; i++)
 		step(9, i);
 	symx_reach("table-full");
 #endif
@@ -321,7 +359,7 @@ void harness(void)
 		symx_assume(N >= 1 && N <= NFILES + 1 && N <= 4);
 #endif
 		c = symx_conc(c);
-		N = (c == 9 || c == 11) ? symx_conc(N) : 1;
+		N = (c == 9 || c == 11 || c == 17 || c == 18) ? symx_conc(N) : 1;
 		step(c, N);
 	}
 	step(-1, 0);
